@@ -45,6 +45,34 @@ def member_codes(member):
     return [str(s) for s in member.ansi_settings]
 
 
+def double_application(form):
+    """Two overlapping applications of one spelling must behave as two separate settings (identity is what the
+    library tracks): slices, concatenation and removal afterwards stay consistent.  Returns None or text."""
+    args = form[1:] if isinstance(form, tuple) and form and form[0] == 'ARGS' else (form,)
+    try:
+        v = AnsiString('abcd', *args)
+        v.apply_formatting(list(args), 1, 3)
+        err = model.healthy(v)
+        if err:
+            return err
+        for (i, j) in ((0, 3), (1, 3), (2, 4), (0, 1)):
+            err = model.healthy(v[i:j])
+            if err:
+                return 'slice [%d:%d]: %s' % (i, j, err)
+        w = AnsiString('x', *args) + v
+        err = model.healthy(w)
+        if err:
+            return 'concatenation: ' + err
+        t, cells = model.alpha_codes(w)
+        one = list(model.alpha_codes(AnsiString('x', *args))[1][0])
+        want = [one, one, one + one, one + one, one]
+        if [sorted(c) for c in cells] != [sorted(c) for c in want]:
+            return 'cells after double application + concatenation: %r expected %r' % (cells, want)
+    except Exception as e:  # noqa
+        return 'raised %s: %s' % (type(e).__name__, e)
+    return None
+
+
 def check_class(canon, forms, label, hows=('ctor',)):
     """Every form must give the reported settings `canon` and the same rendering as the first form."""
     bad = []
@@ -60,6 +88,10 @@ def check_class(canon, forms, label, hows=('ctor',)):
                 continue
             if got != canon:
                 bad.append(('spelling-codes', '%s: %r via %s reports %r, expected %r' % (label, form, how, got, canon)))
+            elif how == 'ctor':
+                err = double_application(form)
+                if err:
+                    bad.append(('spelling-shares-objects', '%s: %r applied twice (overlapping): %s' % (label, form, err)))
             if ref_render is None:
                 ref_render = rend
             elif rend != ref_render:
